@@ -30,7 +30,7 @@ EXPLANATION = (
     "index and by name, and 0..N-1 without a list; (7) carquet_column_read_batch, executed with the page "
     "reader hooked (pages of 3, 4, 2 values or a failing second page; requests 1..12; level arrays wanted or "
     "not; every fixed-width type), hands each page the three output positions advanced by what was already "
-    "delivered and returns the total. a comparison that decides what remains of a chunk never sets stored (compressed, header-carrying) byte counts against uncompressed byte counts (R36, members classified by a frozen table, locals by what they are built from). Decides these "
+    "delivered and returns the total. a comparison that decides what remains of a chunk never sets stored (compressed, header-carrying) byte counts against uncompressed byte counts (R36, members classified by a frozen table, locals by what they are built from). (9) carquet_reader_get_column executed on a chunk of 2^31 + 1000 values, then carquet_column_remaining / carquet_column_has_next on its result: the counter that steers read_batch, skip and has_next holds the full count. Decides these "
     "clauses, not that the dense-values offset is right for nullable pages.")
 
 PR = "src/reader/page_reader.c"
@@ -257,6 +257,8 @@ def run(ctx):
     ctx.clause("C02.8 what remains of a chunk is never judged by comparing stored (compressed, header-carrying) bytes with uncompressed bytes")
     from ..rules import sizekind
     ctx.count("byte_kind_comparisons", sizekind.check(ctx, P.funcs_under("src/reader/")))
+    ctx.clause("C02.9 the reader's remaining-values counter holds a chunk's full 64-bit value count (remaining() / has_next() on a chunk of 2^31 + 1000 values)")
+    ctx.floor("C02 remaining-width probes", _remaining_width(ctx), 1)
     ctx.clause("C02.6 the batch reader's projection is the caller's list, in the caller's order, for every width (by index or by name)")
     _projection(ctx)
     ctx.clause("C02.7 a read that spans pages appends every page's values, definition and repetition levels where the previous page stopped")
@@ -621,3 +623,36 @@ def _page_cursor(ctx, rn):
         ctx.inconclusive("R9.paired", "page-cursor-trace|%s:carquet_read_next_page" % PR, P.where(rn.body),
                          "abstract execution of carquet_read_next_page", "%s: %s" % (type(ex).__name__, ex))
     ctx.floor("C02 page cursor scenarios", n, 100)
+
+
+def _remaining_width(ctx):
+    """A column chunk may hold 2^31 values or more (NULL entries count). carquet_reader_get_column is executed abstractly on a
+    chunk whose metadata says 2^31 + 1000 values; carquet_column_remaining and carquet_column_has_next on the reader it
+    returns must say 2^31 + 1000 and true: the counter is what read_batch, skip and has_next are steered by."""
+    from ..rules import sem
+    from ..rules.skeleton import Ptr
+    from . import C17
+    P = ctx.P
+    N = (1 << 31) + 1000
+    FR = "src/reader/file_reader.c"
+    fn = P.fn_opt("carquet_reader_get_column", FR)
+    rem = P.fn_opt("carquet_column_remaining", FR) or P.fn_opt("carquet_column_remaining", "src/reader/column_reader.c")
+    hn = P.fn_opt("carquet_column_has_next", FR) or P.fn_opt("carquet_column_has_next", "src/reader/column_reader.c")
+    if fn is None or rem is None or hn is None:
+        raise AnalysisBroken("anchor functions carquet_reader_get_column / carquet_column_remaining / carquet_column_has_next not found")
+    key = "remaining-width|%s:carquet_reader_get_column" % FR
+    what = "a fresh column reader over a chunk of 2^31 + 1000 values reports 2^31 + 1000 remaining and has_next true"
+    try:
+        fn, ret, heap, cro = C17.column_reader_probe(P, num_values=N)
+        if not isinstance(ret, Ptr):
+            raise sem.Inconclusive("carquet_reader_get_column returns %r" % (ret,))
+        r, e1, h1 = sem.run(P, rem, [ret], heap0=heap, hooks={}, single=True, max_forks=4, budget=20000)
+        h, e2, h2 = sem.run(P, hn, [ret], heap0=heap, hooks={}, single=True, max_forks=4, budget=20000)
+        if not isinstance(r, int) or not isinstance(h, int):
+            raise sem.Inconclusive("remaining is %r, has_next is %r" % (r, h))
+        ok = r == N and bool(h)
+        ctx.ob("R5.agree", key, P.where(fn.body), what, ok, "" if ok else "remaining() is %d and has_next() is %s for a chunk of %d values" % (r, "true" if h else "false", N))
+        return 1
+    except (sem.Inconclusive, KeyError) as ex:
+        ctx.inconclusive("R5.agree", key, P.where(fn.body), what, "%s: %s" % (type(ex).__name__, ex))
+        return 0
